@@ -314,41 +314,6 @@ func TestVerif_C37(t *testing.T) {
 		return
 	}
 
-	// Part 2 (shard 0): token-level grid -- the documented forms with names and defaults longer than the
-	// character grid reaches: prefix x form x suffix and form x form, names {A,b,Ab,_,A1},
-	// defaults {"", b, -, :, " ", 1, A, "x y"}.
-	if r.Shard == 0 {
-		names := []string{"A", "b", "Ab", "_", "A1"}
-		defaults := []string{"", "b", "-", ":", " ", "1", "A", "x y"}
-		var forms []string
-		for _, n := range names {
-			forms = append(forms, "$"+n, "${"+n+"}")
-			for _, d := range defaults {
-				forms = append(forms, "${"+n+":-"+d+"}")
-			}
-		}
-		affixes := []string{""}
-		for _, c := range alpha {
-			affixes = append(affixes, string(c))
-		}
-		for _, e := range envs {
-			m := c37Apply(e)
-			for _, f := range forms {
-				for _, pre := range affixes {
-					for _, suf := range affixes {
-						check(pre+f+suf, e, m)
-						r.Add("token_grid_texts", 1)
-					}
-				}
-				for _, g := range forms {
-					check(f+g, e, m)
-					check(f+" "+g, e, m)
-					r.Add("token_grid_texts", 2)
-				}
-			}
-		}
-	}
-
 	buf := make([]byte, maxLen)
 	var idx int64
 outer:
@@ -378,6 +343,43 @@ outer:
 		idx += total
 		r.SetMax("text_len", int64(l))
 	}
+	// Part 2 (shard 0): token-level grid -- the documented forms with names and defaults longer than the
+	// character grid reaches: prefix x form x suffix and form x form, names {A,b,Ab,_,A1},
+	// defaults {"", b, -, :, " ", 1, A, "x y"}.
+	if r.Shard == 0 {
+		names := []string{"A", "b", "Ab", "_", "A1"}
+		defaults := []string{"", "b", "-", ":", " ", "1", "A", "x y"}
+		var forms []string
+		for _, n := range names {
+			forms = append(forms, "$"+n, "${"+n+"}")
+			for _, d := range defaults {
+				forms = append(forms, "${"+n+":-"+d+"}")
+			}
+		}
+		affixes := []string{""}
+		for _, c := range alpha {
+			affixes = append(affixes, string(c))
+		}
+		for _, e := range envs {
+			m := c37Apply(e)
+			for _, f := range forms {
+				for _, pre := range affixes {
+					for _, suf := range affixes {
+						check(pre+f+suf, e, m)
+						r.Add("token_grid_texts", 1)
+					}
+				}
+			}
+			for _, f := range forms {
+				for _, g := range forms {
+					check(f+g, e, m)
+					check(f+" "+g, e, m)
+					r.Add("token_grid_texts", 2)
+				}
+			}
+		}
+	}
+
 	restore()
 	if err := r.Finish(); err != nil {
 		t.Fatal(err)
